@@ -578,6 +578,27 @@ func ruleLMOpts(p *Prog, r *Reporter) {
 		used, how := p.optsConsumed(fn, last, 0)
 		r.Check(used, p.Pos(fn.Pos()), p.FuncName(fn), "options ..."+shortType(sl.Elem()), how,
 			"the variadic options are accepted but neither applied in a full-range loop nor forwarded: limits supplied by the caller are silently dropped")
+		// every call that accepts the same kind of options must receive the caller's options
+		// (a path that builds the result without them silently falls back to the defaults)
+		for _, c := range callsIn(fn) {
+			cc := c.Common()
+			sig, isSig := cc.Value.Type().Underlying().(*types.Signature)
+			if cc.IsInvoke() || !isSig || !sig.Variadic() || len(cc.Args) == 0 {
+				continue
+			}
+			ps := sig.Params()
+			vt, isSl := ps.At(ps.Len() - 1).Type().(*types.Slice)
+			if !isSl || !types.Identical(vt.Elem(), sl.Elem()) {
+				continue
+			}
+			arg := cc.Args[len(cc.Args)-1]
+			fw := arg == ssa.Value(last) || sliceDependsOn(arg, last)
+			callee := "callee"
+			if f := cc.StaticCallee(); f != nil {
+				callee = calleeName(f)
+			}
+			r.Check(fw, p.instrPos(c), p.FuncName(fn), "options passed to "+callee, "the caller's options are forwarded", "a call to "+callee+" does not receive the caller's options: on this path the configured limits are replaced by the defaults")
+		}
 	}
 }
 
@@ -693,6 +714,16 @@ func ruleLMErr(p *Prog, r *Reporter) {
 			continue
 		}
 		ok2, why := returnsPropagate(tests[0].nonNil, cv)
-		r.Check(ok2, pos, name, "World.Run", "error tested and returned", "on the err != nil branch: "+why)
+		if ok2 {
+			// the limit sentinels must stay distinguishable: returned as is, or wrapped with %w
+			for b := range reachableFrom(tests[0].nonNil) {
+				if ret := blockReturn(b); ret != nil {
+					if !wrapsWithW(retVal(ret, errorResultIndex(cs.fn)), cv) {
+						ok2, why = false, "the run error is re-formatted without %w: errors.Is no longer recognises the exported limit sentinels"
+					}
+				}
+			}
+		}
+		r.Check(ok2, pos, name, "World.Run", "error tested and returned (identifiable with errors.Is)", "on the err != nil branch: "+why)
 	}
 }
